@@ -266,7 +266,7 @@ func RunSharded(t *testing.T, cases []Case, run func(t *testing.T, c Case, rec *
 					run(t, c, rec)
 				}()
 				lines := rec.Lines()
-				hdr := Op{"ev": "Reset", "case": i, "cfg": map[string]any(c.Cfg)}
+				hdr := Op{"ev": "Reset", "case": i + EnvInt("VERIF_CASE_BASE", 0), "cfg": map[string]any(c.Cfg)}
 				all := append([]Op{hdr}, lines...)
 				for _, l := range lines {
 					local[l.Str("ev")]++
